@@ -141,7 +141,9 @@ def project_case(case: Any, op: dict, method: str, exempt: bool = False) -> dict
     has_body = not isinstance(case.body, NotSet)
     declared_q = {uncps(p["name"]): p["schema"] for p in op["params"] if p["loc"] == "query"}
     q = case.query if isinstance(case.query, dict) else {}
-    dup = any(isinstance(v, list) and declared_q.get(k, {}).get("type") != ["array"] for k, v in q.items())
+    # a duplicated parameter shows as a list; for an array-typed parameter only a list of >= 2 equal entries can be one (benefit of doubt)
+    dup = any(isinstance(v, list) and (declared_q.get(k, {}).get("type") != ["array"] or (len(v) >= 2 and all(x == v[0] for x in v)))
+              for k, v in q.items())
     return {"labels": labels, "parts": parts, "alt": alt, "hasBody": has_body,
             "body": encode_value(case.body, mults) if has_body else {"t": "absent"},
             "media": case.media_type or "", "dup": dup, "methodDocumented": str(case.method).upper() == method, "exempt": exempt}
@@ -311,7 +313,7 @@ def _detail_set(detail: Any) -> list:
     return sorted(detail, key=str) if isinstance(detail, list) else []
 
 
-_PRIORITY = ["no-witness", "exclusive-bool", "zero-bound", "oneOf", "anyOf", "nullable", "type-array", "allOf", "not", "format",
+_PRIORITY = ["no-witness", "oneOf", "anyOf", "nullable", "type-array", "exclusive-bool", "zero-bound", "allOf", "not", "format",
              "pattern+length", "zero-length", "minProperties", "multipleOf", "readOnly", "ref"]
 
 
@@ -365,12 +367,16 @@ def value_signature(rule: str, description: str, detail: Any, desc: dict) -> str
 
 def case_signature(rule: str, description: str, detail: Any, desc: dict) -> str:
     parts = [t for t in _detail_set(detail) if isinstance(t, list) and len(t) == 3]
-    if rule == "case-positive-something-invalid" and any(t[1] == "F" and t[2] == "negative" for t in parts):
-        return "C03:case:case-label-lags-part-label:" + "+".join(sorted(t[0] for t in parts if t[1] == "F" and t[2] == "negative"))
-    where = "+".join(sorted(t[0] for t in parts if (t[1] == "F" and t[2] == "positive") or (t[1] == "T" and t[2] == "negative"))) or "-"
+    cls = lambda names: "+".join(sorted({"body" if n == "body" else "param" for n in names})) or "-"  # noqa: E731
     kind = "method" if description.startswith("Unspecified HTTP method") else "missing" if description.startswith("Missing `") else \
         "duplicate" if description.startswith("Duplicate `") else "value"
-    return "C03:case:%s:%s:%s:%s" % (rule, kind, where, primary(features(desc)))
+    if rule == "case-positive-something-invalid" and any(t[1] == "F" and t[2] == "negative" for t in parts):
+        return "C03:case:case-label-lags-part-label:" + cls(t[0] for t in parts if t[1] == "F" and t[2] == "negative")
+    if any(t[1] == "F" and t[2] == "none" for t in parts) and rule in ("case-positive-something-invalid", "part-positive-invalid"):
+        return "C03:case:required-part-absent:" + cls(t[0] for t in parts if t[1] == "F" and t[2] == "none")
+    if rule in ("part-negative-valid", "case-negative-nothing-invalid"):      # a negative label on content that is valid
+        return "C03:case:negative-label-valid-part:%s" % cls(t[0] for t in parts if t[1] == "T" and t[2] == "negative")
+    return "C03:case:%s:%s:%s:%s" % (rule, kind, cls(t[0] for t in parts if t[1] == "F" and t[2] == "positive"), primary(features(desc)))
 
 
 def _short(desc: dict) -> str:
